@@ -1,7 +1,8 @@
 """K3 schemas for the single TAL statements (C01, C04, C05, C07, C08, C02 sinks)."""
 from pyvc.k3 import schema_contracts
 
-H1 = '<?python __hole__(1) ?>'
+from pyvc.k3 import hole
+H1 = hole(1)
 PROP = ["C01", "C04"]
 ANYRAISE = {'*': {'ensures': ["True"]}}
 
